@@ -781,3 +781,94 @@ pub fn threads(cmd: &Value) -> Vec<Value> {
     ev.as_object_mut().unwrap().remove("insts");
     vec![ev]
 }
+
+
+// ------------------------------------------------------------------ parser-level observation
+
+fn mbtype_index(t: hk::MacroblockType) -> i64 {
+    match t {
+        hk::MacroblockType::Inter => 0,
+        hk::MacroblockType::InterQ => 1,
+        hk::MacroblockType::Inter4V => 2,
+        hk::MacroblockType::Intra => 3,
+        hk::MacroblockType::IntraQ => 4,
+        hk::MacroblockType::Inter4Vq => 5,
+    }
+}
+
+/// {"op":"parse","sor":..,"bytes":[..],"pic":{..}}: the public parser functions on their own -
+/// decode_picture, then decode_macroblock / decode_block x 6 until `nmb` macroblocks or an error.
+/// Records what the parser returned, macroblock by macroblock (no reconstruction involved).
+pub fn parse(cmd: &Value) -> Value {
+    use h263_rs::parser::{decode_block, decode_macroblock};
+    let mut ev = cmd.clone();
+    let b = bytes(&cmd["bytes"]);
+    let nmb = cmd["nmb"].as_u64().unwrap_or(0) as usize;
+    let g = Growing { data: Rc::new(RefCell::new((b.clone(), b.len(), 0))), maxread: 0 };
+    let mut rd = H263Reader::from_source(g);
+    let o = opts(cmd);
+    let r = guarded(|| {
+        let mut out: Vec<Value> = Vec::new();
+        let pic = match decode_picture(&mut rd, o, None) {
+            Ok(Some(p)) => p,
+            Ok(None) => return (out, "header:none".to_string()),
+            Err(e) => return (out, format!("header:{}", err_name(&e))),
+        };
+        let mut real = 0usize;
+        while real < nmb {
+            match decode_macroblock(&mut rd, &pic, pic.options) {
+                Ok(hk::Macroblock::Stuffing) => out.push(json!({"k":"stuff"})),
+                Ok(hk::Macroblock::Uncoded) => {
+                    out.push(json!({"k":"skip"}));
+                    real += 1;
+                }
+                Ok(hk::Macroblock::Coded { mb_type, coded_block_pattern, d_quantizer, motion_vector, addl_motion_vectors, .. }) => {
+                    let mut mvd = Vec::new();
+                    if let Some(m) = motion_vector {
+                        mvd.push(mv_json(m));
+                    }
+                    if let Some(ms) = addl_motion_vectors {
+                        for m in ms.iter() {
+                            mvd.push(mv_json(*m));
+                        }
+                    }
+                    let cl = coded_block_pattern.codes_luma;
+                    let cbpy = (cl[0] as i64) * 8 + (cl[1] as i64) * 4 + (cl[2] as i64) * 2 + (cl[3] as i64);
+                    let cbpc = (coded_block_pattern.codes_chroma_b as i64) * 2 + (coded_block_pattern.codes_chroma_r as i64);
+                    let flags = [cl[0], cl[1], cl[2], cl[3], coded_block_pattern.codes_chroma_b, coded_block_pattern.codes_chroma_r];
+                    let mut blocks = Vec::new();
+                    for f in flags.iter() {
+                        match decode_block(&mut rd, o, &pic, pic.options, mb_type, *f) {
+                            Ok(blk) => blocks.push(json!({
+                                "dc": blk.intradc.map(|d| if d.into_level() == 1024 { 255 } else { (d.into_level() / 8) as i64 }).unwrap_or(-1),
+                                "ev": blk.tcoef.iter().map(|t| json!([if t.is_short {1} else {0}, t.run, t.level])).collect::<Vec<_>>(),
+                            })),
+                            Err(e) => {
+                                out.push(json!({"k":"mb","t":mbtype_index(mb_type),"cbpc":cbpc,"cbpy":cbpy,"dq":d_quantizer.unwrap_or(0),"mvd":mvd,"b":blocks}));
+                                return (out, format!("block:{}", err_name(&e)));
+                            }
+                        }
+                    }
+                    out.push(json!({"k":"mb","t":mbtype_index(mb_type),"cbpc":cbpc,"cbpy":cbpy,"dq":d_quantizer.unwrap_or(0),"mvd":mvd,"b":blocks}));
+                    real += 1;
+                }
+                Err(e) => return (out, format!("macroblock:{}", err_name(&e))),
+            }
+        }
+        (out, "done".to_string())
+    });
+    match r {
+        Ok((mbs, end)) => {
+            ev["ret"] = json!("ok");
+            ev["rc"] = json!("ok");
+            ev["parsed"] = json!(mbs);
+            ev["end"] = json!(end);
+            ev["probe"] = probe(&mut rd);
+        }
+        Err(m) => {
+            ev["ret"] = json!(format!("panic:{}", m));
+            ev["rc"] = json!("panic");
+        }
+    }
+    ev
+}
